@@ -1,2 +1,79 @@
-(* placeholder — theorems are added below as they are proved *)
-From Mokaverif Require Import Model.Base Model.Confidence.
+(* C03 — competition and rollup.  Statements only; proofs in Proofs/ConfidenceP.v.
+   Vocabulary: fs key l = first-seen-wins (one row per key, the first in l);
+   is_best score key pool r = r is in pool and no row of pool with r's key scores higher;
+   level_of lkey dedup j stream = content of level file j for a merged stream;
+   ge_sc score a b = score a >= score b. *)
+From Coq Require Import Permutation Sorted.
+From Mokaverif Require Import Model.Base Model.Tdc Model.Confidence Proofs.TdcP Proofs.ConfidenceP.
+Open Scope Z_scope.
+
+(* the level loop: first seen wins at every level; a PSM dropped at PSM level is dropped everywhere *)
+Theorem C03_levels_structure : forall (row : Type) (score : row -> Z) (lkey : nat -> row -> Z) c cd dedup n rows,
+  cf_levels row score lkey c cd dedup n rows
+  = map (fun j => level_of lkey dedup j (cf_stream row score lkey c cd rows)) (seq 0 n).
+Proof. exact levels_unfold. Qed.
+Print Assumptions C03_levels_structure.
+
+(* de-duplication on (scores pairwise distinct): the PSM level holds exactly the best PSM of each
+   spectrum, level j exactly the best retained PSM of each entity; every file is in
+   non-increasing score order; every output row is an input row *)
+Theorem C03_dedup : forall (row : Type) (score : row -> Z) (lkey : nat -> row -> Z) c n rows,
+  (1 <= c)%nat -> NoDup (map score rows) ->
+  let out := cf_levels row score lkey c true true n rows in
+  let psms := nth 0%nat out [] in
+  forall j, (j < n)%nat ->
+    StronglySorted (ge_sc score) (nth j out []) /\
+    forall r, In r (nth j out []) <->
+              is_best score (lkey j) (match j with O => rows | S _ => psms end) r.
+Proof. exact levels_dedup_spec. Qed.
+Print Assumptions C03_dedup.
+
+(* de-duplication off: every PSM is at PSM level (any scores), higher levels as before *)
+Theorem C03_nodedup : forall (row : Type) (score : row -> Z) (lkey : nat -> row -> Z) c n rows,
+  (1 <= c)%nat -> NoDup (map score rows) ->
+  let out := cf_levels row score lkey c false false n rows in
+  let psms := nth 0%nat out [] in
+  forall j, (j < n)%nat ->
+    StronglySorted (ge_sc score) (nth j out []) /\
+    match j with
+    | O => Permutation psms rows
+    | S _ => forall r, In r (nth j out []) <-> is_best score (lkey j) psms r
+    end.
+Proof. exact levels_nodedup_spec. Qed.
+Print Assumptions C03_nodedup.
+
+(* the level files do not depend on the confidence chunk size *)
+Theorem C03_chunk_independent : forall (row : Type) (score : row -> Z) (lkey : nat -> row -> Z) c c' dedup n rows,
+  (1 <= c)%nat -> (1 <= c')%nat -> NoDup (map score rows) ->
+  cf_levels row score lkey c dedup dedup n rows = cf_levels row score lkey c' dedup dedup n rows.
+Proof. exact levels_chunk_independent. Qed.
+Print Assumptions C03_chunk_independent.
+
+(* targets and decoys go to their respective outputs; the q-value column is the C01 formula
+   evaluated on exactly the rows retained at that level *)
+Theorem C03_outputs : forall c dedup n rows j tg dc,
+  nth j (cf_confidence c dedup n rows) ([], []) = (tg, dc) -> (j < n)%nat ->
+  let lvl := nth j (cf_levels cf_row cf_score cf_lkey c dedup dedup n rows) [] in
+  let rq := combine lvl (cf_qvalues lvl) in
+  tg = filter (fun p => cf_target (fst p)) rq /\
+  dc = filter (fun p => negb (cf_target (fst p))) rq /\
+  length (cf_qvalues lvl) = length lvl /\
+  forall i, (i < length lvl)%nat ->
+    is_qvalue true (combine (map cf_score lvl) (map cf_target lvl)) (cf_score (nth i lvl (Build_cf_row 0 0 [] false 0)))
+              (nth i (cf_qvalues lvl) 1%Q).
+Proof. exact confidence_outputs. Qed.
+Print Assumptions C03_outputs.
+
+(* non-vacuity: 6 PSMs, 3 spectra, 2 peptides; chunk size 2 splits a spectrum over two chunks *)
+Definition mk id sp pep tg sc := {| cf_id := id; cf_spec := sp; cf_keys := [pep]; cf_target := tg; cf_score := sc |}.
+Definition ex_rows := [mk 0 1 10 true 50; mk 1 2 10 false 40; mk 2 1 11 true 70; mk 3 3 11 true 30; mk 4 2 11 false 60; mk 5 3 10 true 20].
+Example C03_example :
+  map (map cf_id) (cf_levels cf_row cf_score cf_lkey 2 true true 2 ex_rows) = [[2;4;3]; [2]] /\
+  map (map cf_id) (cf_levels cf_row cf_score cf_lkey 2 false false 2 ex_rows) = [[2;4;0;1;3;5]; [2;0]] /\
+  cf_levels cf_row cf_score cf_lkey 2 true true 2 ex_rows = cf_levels cf_row cf_score cf_lkey 100 true true 2 ex_rows /\
+  NoDup (map cf_score ex_rows).
+Proof. vm_compute. repeat split; repeat constructor; simpl; intuition discriminate. Qed.
+(* the defect repaired in /repo (F5): per-chunk de-duplication while de-duplication is off loses PSMs *)
+Example C03_chunk_dedup_flag_matters :
+  map (map cf_id) (cf_levels cf_row cf_score cf_lkey 100 true false 2 ex_rows) = [[2;4;3]; [2]].
+Proof. vm_compute. reflexivity. Qed.
